@@ -12,7 +12,7 @@ use prio::flp::types::{Average, Count, Histogram, L1BoundSum, MultihotCountVec, 
 use prio::flp::Type;
 use prio::vdaf::prio3::Prio3;
 use prio::vdaf::test_utils::TestVectorClient;
-use prio::vdaf::xof::{IntoFieldVec, Xof, XofTurboShake128};
+use prio::vdaf::xof::{IntoFieldVec, Xof, XofHmacSha256Aes128, XofTurboShake128};
 use prio::vdaf::{Aggregator, Collector};
 use pvh::engine::tape::{tape_alphabet, Tape};
 use pvh::engine::{fnv, par, Level, Run};
@@ -22,7 +22,7 @@ use pvh::kit::vdafkit::{verify_report, Failure, Stage, VerifyOpts};
 use serde_json::json;
 use std::sync::Mutex;
 
-type P3<T> = Prio3<T, XofTurboShake128, 32>;
+type P3<T, X = XofTurboShake128> = Prio3<T, X, 32>;
 
 fn ctx_for(i: usize) -> Vec<u8> {
     match i % 3 {
@@ -39,7 +39,7 @@ struct Config {
 
 /// Recompute the query randomness exactly as the specification derives it (public XOF API only),
 /// to predict the one permitted failure over tiny fields: a gadget point that is a P-th root of unity.
-fn spec_query_rands<F: KitField>(alg: u32, num_proofs: u8, verify_key: &[u8; 32], ctx: &[u8], nonce: &[u8; 16], len: usize) -> Vec<F>
+fn spec_query_rands<F: KitField, X: Xof<32>>(alg: u32, num_proofs: u8, verify_key: &[u8; 32], ctx: &[u8], nonce: &[u8; 16], len: usize) -> Vec<F>
 where
     F::Integer: IntConv,
 {
@@ -48,7 +48,7 @@ where
     dst[1] = 0;
     dst[2..6].copy_from_slice(&alg.to_be_bytes());
     dst[6..8].copy_from_slice(&5u16.to_be_bytes());
-    let mut xof = XofTurboShake128::init(verify_key, &[&dst, ctx]);
+    let mut xof = X::init(verify_key, &[&dst, ctx]);
     xof.update(&[num_proofs]);
     xof.update(nonce);
     xof.into_seed_stream().into_field_vec(len)
@@ -56,6 +56,18 @@ where
 
 fn run_case<T>(run: &Run, case: &Case<T>, cfg: &Config, tapes: &[(String, Tape)], small_field: bool)
 where
+    T: Type + Clone + Send + Sync + 'static,
+    T::Field: KitField,
+    <T::Field as prio::field::FieldElementWithInteger>::Integer: IntConv,
+    T::Measurement: Send + Sync,
+{
+    run_case_x::<T, XofTurboShake128>(run, case, cfg, tapes, small_field, "")
+}
+
+/// The sweep proper, for any XOF with 32-byte seeds (`tag` distinguishes the XOF in case keys).
+fn run_case_x<T, X>(run: &Run, case: &Case<T>, cfg: &Config, tapes: &[(String, Tape)], small_field: bool, tag: &str)
+where
+    X: Xof<32> + Send + Sync + 'static,
     T: Type + Clone + Send + Sync + 'static,
     T::Field: KitField,
     <T::Field as prio::field::FieldElementWithInteger>::Integer: IntConv,
@@ -76,24 +88,30 @@ where
     par::for_each(items.len() as u64, |ix| {
         let (na, np, ti) = items[ix as usize];
         let (tname, tape) = &tapes[ti];
-        let vdaf: P3<T> = match Prio3::new(na, np, case.alg, case.typ.clone()) {
+        // the client holds an instance built afresh (never cloned); aggregators and collector hold a
+        // clone of it: a clone denotes the same instance
+        let client: P3<T, X> = match Prio3::new(na, np, case.alg, (case.make)()) {
             Ok(v) => v,
             Err(e) => {
                 run.fail(&format!("{}/new", case.name), &format!("{}: Prio3::new({na},{np}) failed: {e}", case.name), json!({"case": case.name, "aggs": na, "proofs": np}));
                 return;
             }
         };
-        let ctx = ctx_for(ti + na as usize);
+        let vdaf: P3<T, X> = client.clone();
+        let mut ctx = ctx_for(ti + na as usize);
+        if !tag.is_empty() {
+            ctx.truncate(200); // the HMAC XOF's domain-separation tag is limited to 255 bytes
+        }
         let verify_key: [u8; 32] = tape.array(1000 + ix);
         let rand_len = if jr { 2 * na as usize * 32 } else { na as usize * 32 };
         // per-measurement output shares (one report each)
-        let mut outs: Vec<Option<Vec<<P3<T> as prio::vdaf::Vdaf>::OutputShare>>> = vec![];
+        let mut outs: Vec<Option<Vec<<P3<T, X> as prio::vdaf::Vdaf>::OutputShare>>> = vec![];
         for (mi, m) in case.meas.iter().enumerate() {
             let nonce: [u8; 16] = tape.array(2000 + mi as u64);
             let random = tape.bytes(3000 + mi as u64 * 17 + ix, rand_len);
-            let key = format!("{}/a{na}/p{np}", case.name);
+            let key = format!("{}{tag}/a{na}/p{np}", case.name);
             let casej = || json!({"case": case.name, "aggs": na, "proofs": np, "tape": tname, "measurement_index": mi, "ctx_len": ctx.len()});
-            let (ps, shares) = match pvh::engine::catch(|| vdaf.shard_with_random(&ctx, m, &nonce, &random)) {
+            let (ps, shares) = match pvh::engine::catch(|| client.shard_with_random(&ctx, m, &nonce, &random)) {
                 Ok(Ok(x)) => x,
                 Ok(Err(e)) => {
                     run.fail(&format!("{key}/shard"), &format!("{}: sharding a valid measurement failed: {e}", case.name), casej());
@@ -109,13 +127,13 @@ where
                 return;
             }
             run.count("evaluations", 1);
-            match verify_report::<P3<T>, 32>(&vdaf, &verify_key, &ctx, &(), &nonce, &ps, &shares, &VerifyOpts::wire()) {
+            match verify_report::<P3<T, X>, 32>(&vdaf, &verify_key, &ctx, &(), &nonce, &ps, &shares, &VerifyOpts::wire()) {
                 Ok((o, _tr)) => outs.push(Some(o)),
                 Err(Failure { stage, msg }) => {
                     // small fields: the specified refusal of query randomness is the one permitted failure
                     if small_field && matches!(stage, Stage::VerifyInit(_)) && msg.contains("invalid query randomness") {
                         let qlen = case.typ.query_rand_len();
-                        let qr: Vec<T::Field> = spec_query_rands(case.alg, np, &verify_key, &ctx, &nonce, qlen * np as usize);
+                        let qr: Vec<T::Field> = spec_query_rands::<T::Field, X>(case.alg, np, &verify_key, &ctx, &nonce, qlen * np as usize);
                         let any_root = (0..np as usize).any(|k| modpow(qr[k * qlen + qlen - 1].val(), case.wire_poly_len as u128, p) == 1);
                         if any_root {
                             *refused.lock().unwrap() += 1;
@@ -160,7 +178,7 @@ where
                 };
                 // wire
                 let bytes = sh.get_encoded().unwrap();
-                let sh2 = match <P3<T> as prio::vdaf::Vdaf>::AggregateShare::get_decoded_with_param(&(&vdaf, &()), &bytes) {
+                let sh2 = match <P3<T, X> as prio::vdaf::Vdaf>::AggregateShare::get_decoded_with_param(&(&vdaf, &()), &bytes) {
                     Ok(s) => s,
                     Err(e) => {
                         run.fail(&format!("{}/aggshare_codec", case.name), &format!("{}: aggregate share does not decode: {e}", case.name), json!({"case": case.name}));
@@ -213,14 +231,105 @@ where
                 }
             }
         }
-        run.distinct(fnv(format!("{}/{na}/{np}/{tname}", case.name).as_bytes()));
+        run.distinct(fnv(format!("{}{tag}/{na}/{np}/{tname}", case.name).as_bytes()));
     });
     run.count("refused_query_randomness_small_field", *refused.lock().unwrap());
 }
 
+/// The library's named constructors must denote the same instance as `Prio3::new` with the
+/// specification's algorithm identifier and the same type parameters (in the same order): shards of
+/// the same measurement under the same randomness are byte-identical, and the constructor-built
+/// instance verifies and aggregates the reference instance's report.
+fn same_instance<T>(run: &Run, ctor: &str, lib: Result<P3<T>, prio::vdaf::VdafError>, case: &Case<T>, na: u8, tapes: &[(String, Tape)])
+where
+    T: Type + Clone + Send + Sync + 'static,
+    T::Field: KitField,
+    <T::Field as prio::field::FieldElementWithInteger>::Integer: IntConv,
+{
+    let key = format!("ctor/{ctor}/{}", case.name);
+    let lib = match lib {
+        Ok(v) => v,
+        Err(e) => {
+            run.fail(&format!("{key}/new"), &format!("{ctor} refused admissible parameters of {}: {e}", case.name), json!({"ctor": ctor, "case": case.name, "aggs": na}));
+            return;
+        }
+    };
+    let reference: P3<T> = Prio3::new(na, 1, case.alg, case.typ.clone()).unwrap();
+    let jr = case.typ.joint_rand_len() > 0;
+    let rand_len = if jr { 2 * na as usize * 32 } else { na as usize * 32 };
+    for (ti, (tname, tape)) in tapes.iter().enumerate() {
+        let ctx = ctx_for(ti);
+        let verify_key: [u8; 32] = tape.array(77);
+        let mut outs: Vec<Vec<<P3<T> as prio::vdaf::Vdaf>::OutputShare>> = vec![];
+        for (mi, m) in case.meas.iter().enumerate() {
+            let nonce: [u8; 16] = tape.array(500 + mi as u64);
+            let random = tape.bytes(900 + mi as u64, rand_len);
+            let casej = || json!({"ctor": ctor, "case": case.name, "aggs": na, "tape": tname, "measurement_index": mi});
+            let a = pvh::engine::catch(|| lib.shard_with_random(&ctx, m, &nonce, &random));
+            let b = reference.shard_with_random(&ctx, m, &nonce, &random);
+            let ((ps_a, sh_a), (ps_b, sh_b)) = match (a, b) {
+                (Ok(Ok(a)), Ok(b)) => (a, b),
+                (a, _) => {
+                    run.fail(&format!("{key}/shard"), &format!("{ctor}: sharding an in-range measurement of {} failed: {:?}", case.name, a.map(|r| r.map(|_| ()).map_err(|e| e.to_string()))), casej());
+                    return;
+                }
+            };
+            let enc_a: Vec<Vec<u8>> = std::iter::once(ps_a.get_encoded().unwrap()).chain(sh_a.iter().map(|s| s.get_encoded().unwrap())).collect();
+            let enc_b: Vec<Vec<u8>> = std::iter::once(ps_b.get_encoded().unwrap()).chain(sh_b.iter().map(|s| s.get_encoded().unwrap())).collect();
+            if enc_a != enc_b {
+                run.fail(&format!("{key}/shares_differ"), &format!("{ctor} does not denote Prio3::new(.., algorithm {:#x}, {}): shares of the same measurement under the same randomness differ", case.alg, case.name), casej());
+                return;
+            }
+            // the constructor-built instance verifies the reference instance's report
+            match verify_report::<P3<T>, 32>(&lib, &verify_key, &ctx, &(), &nonce, &ps_b, &sh_b, &VerifyOpts::wire()) {
+                Ok((o, _)) => outs.push(o),
+                Err(Failure { stage, msg }) => {
+                    run.fail(&format!("{key}/verify"), &format!("{ctor}: honest report of {} rejected at {:?}: {msg}", case.name, stage), casej());
+                    return;
+                }
+            }
+            run.count("constructor_reports", 1);
+        }
+        // full batch through the constructor-built instance
+        let n = case.meas.len();
+        let mut agg = vec![];
+        for a in 0..na as usize {
+            match lib.aggregate(&(), outs.iter().map(|o| o[a].clone())) {
+                Ok(s) => agg.push(s),
+                Err(e) => {
+                    run.fail(&format!("{key}/aggregate"), &format!("{ctor}: aggregate failed: {e}"), json!({"ctor": ctor, "case": case.name}));
+                    return;
+                }
+            }
+        }
+        let p = <T::Field as KitField>::p();
+        let mut want: Vec<u128> = vec![];
+        for m in &case.meas {
+            let c = (case.contrib)(m);
+            if want.is_empty() {
+                want = vec![0; c.len()];
+            }
+            for (w, x) in want.iter_mut().zip(&c) {
+                *w = addmod(*w, *x, p);
+            }
+        }
+        if case.average {
+            want = vec![(((want[0] as u64) as f64) / (n as f64)).to_bits() as u128];
+        }
+        match pvh::engine::catch(|| lib.unshard(&(), agg, n)) {
+            Ok(Ok(r)) if (case.result)(&r) == want => {}
+            other => {
+                run.fail(&format!("{key}/aggregate_value"), &format!("{ctor}: full batch of {} unshards to {:?}, plain aggregate is {:?}", case.name, other.map(|r| r.map(|x| (case.result)(&x)).map_err(|e| e.to_string())), want), json!({"ctor": ctor, "case": case.name, "tape": tname}));
+                return;
+            }
+        }
+        run.distinct(fnv(format!("{key}/{na}/{tname}").as_bytes()));
+    }
+}
+
 fn main() {
     let run = Run::from_args("C01", Level::Exploration);
-    run.rule("instances (7 Prio3 types x parameter lattice x aggregators x proofs) x measurement domain (full when small, else edges) x tape alphabet (zero, 0xff, counter, seeded) x ctx {empty,1,300 bytes}; every message through its wire encoding; batches = singletons, all pairs, full, tripled; reference = plain integer aggregate mod p. distinct = distinct (instance, aggregators, proofs, tape) combinations fully verified");
+    run.rule("instances (7 Prio3 types x parameter lattice x aggregators x proofs) x measurement domain (full when small, else edges) x tape alphabet (zero, 0xff, counter, seeded) x ctx {empty,1,300 bytes} x XOF {TurboSHAKE128, HMAC-SHA256+AES128 on 9 instances}; the 7 named constructors denote the same instances as Prio3::new with the specification's algorithm ids (byte-identical shards); every message through its wire encoding; client on a freshly built instance, aggregators and collector on a clone of it; batches = singletons, all pairs, full, tripled; reference = plain integer aggregate mod p. distinct = distinct (instance, aggregators, proofs, tape) combinations fully verified");
     run.assume("sharding randomness / nonce / verify key / ctx come from a fixed tape alphabet (32-byte seeds are not enumerable)");
 
     let q = run.quick();
@@ -314,6 +423,43 @@ fn main() {
     run_case(&run, &histogram_case::<FieldV12289>(9, 4), &small_cfg, &tapes_small, true);
     run_case(&run, &sumvec_case::<FieldV12289>(7, 4, 3), &small_cfg, &tapes_small, true);
     eprintln!("[{:.1}s] small fields done", run.elapsed());
+
+    // ---- the other XOF shipped with the library (HMAC-SHA256 + AES128, 32-byte seeds)
+    let hm = Config { aggs: vec![2, 3], proofs: vec![1, 2] };
+    run_case_x::<_, XofHmacSha256Aes128>(&run, &count_case::<Field64>(), &hm, &tapes, false, "#hmac");
+    run_case_x::<_, XofHmacSha256Aes128>(&run, &sum_case::<Field64>(255), &hm, &tapes, false, "#hmac");
+    run_case_x::<_, XofHmacSha256Aes128>(&run, &sumvec_case::<Field64>(255, 3, 5), &hm, &tapes, false, "#hmac");
+    run_case_x::<_, XofHmacSha256Aes128>(&run, &sumvec_case::<Field128>(3, 5, 4), &hm, &tapes, false, "#hmac");
+    run_case_x::<_, XofHmacSha256Aes128>(&run, &histogram_case::<Field128>(9, 4), &hm, &tapes, false, "#hmac");
+    run_case_x::<_, XofHmacSha256Aes128>(&run, &multihot_case::<Field128>(4, 2, 3), &hm, &tapes, false, "#hmac");
+    run_case_x::<_, XofHmacSha256Aes128>(&run, &l1_case::<Field128>(7, 4, 3), &hm, &tapes, false, "#hmac");
+    run_case_x::<_, XofHmacSha256Aes128>(&run, &average_case::<Field128>(255), &hm, &tapes, false, "#hmac");
+    run_case_x::<_, XofHmacSha256Aes128>(&run, &sumvec_case::<FieldV193>(3, 3, 2), &small_cfg, &tapes_small, true, "#hmac");
+    eprintln!("[{:.1}s] HMAC XOF done", run.elapsed());
+
+    // ---- the library's named constructors (parameters chosen pairwise distinct so that a swapped
+    // argument changes the instance)
+    let ct = &tapes[..tapes.len().min(3)];
+    for na in [2u8, 3] {
+        same_instance(&run, "new_count", Prio3::new_count(na), &count_case::<Field64>(), na, ct);
+        for max in [1u128, 5, 255, 256, (1 << 32) + 1] {
+            same_instance(&run, "new_sum", Prio3::new_sum(na, max as u64), &sum_case::<Field64>(max), na, ct);
+            same_instance(&run, "new_average", Prio3::new_average(na, max), &average_case::<Field128>(max), na, ct);
+        }
+        for (max, len, chunk) in [(1u128, 2usize, 3usize), (3, 5, 4), (255, 2, 7), (6, 3, 2), (2, 7, 5)] {
+            same_instance(&run, "new_sum_vec", Prio3::new_sum_vec(na, max, len, chunk), &sumvec_case::<Field128>(max, len, chunk), na, ct);
+        }
+        for (len, chunk) in [(1usize, 2usize), (2, 1), (5, 3), (3, 5), (9, 4), (4, 9)] {
+            same_instance(&run, "new_histogram", Prio3::new_histogram(na, len, chunk), &histogram_case::<Field128>(len, chunk), na, ct);
+        }
+        for (len, maxw, chunk) in [(5usize, 2usize, 3usize), (5, 3, 2), (3, 2, 5), (4, 1, 2), (2, 2, 4)] {
+            same_instance(&run, "new_multihot_count_vec", Prio3::new_multihot_count_vec(na, len, maxw, chunk), &multihot_case::<Field128>(len, maxw, chunk), na, ct);
+        }
+        for (max, len, chunk) in [(7u128, 4usize, 3usize), (3, 2, 5), (2, 5, 3), (5, 3, 2)] {
+            same_instance(&run, "new_l1_bound_sum", Prio3::new_l1_bound_sum(na, max, len, chunk), &l1_case::<Field128>(max, len, chunk), na, ct);
+        }
+    }
+    eprintln!("[{:.1}s] named constructors done", run.elapsed());
     run.sample(json!({"case": "Histogram(len=9,chunk=4)@Field128", "aggregators": 254, "proofs": 255, "tape": "counter", "batch": [0, 8]}));
     run.sample(json!({"case": "Sum(max=p-1)@Field64", "aggregators": 2, "proofs": 1, "tape": "ff", "batch": "tripled full batch (wraps mod p)"}));
     run.sample(json!({"case": "Count@97", "aggregators": 3, "proofs": 2, "tape": "seeded3", "note": "small field: refusals predicted from the spec's query-randomness derivation"}));
